@@ -72,6 +72,8 @@ func propC05(w *World, r *Report) {
 		return
 	}
 	info := pkg.TypesInfo
+	// the interpreter's locals are bound by role, not by name (c05canon.go)
+	defer c05Canon(info, fd)()
 	br := newBoundsRun(w)
 	p := br.prover(fn)
 
